@@ -126,7 +126,7 @@ def run(ctx):
 
     T = ctx.tier == "thorough"
     idx = 0
-    nmax = 9 if T else 7
+    nmax = 10 if T else 7
     fams = TR.READ_FAMILIES
     for n in range(1, nmax + 1):
         cnt = 0
@@ -158,7 +158,7 @@ def run(ctx):
 
             check_universe(ctx, nodes, gen.parents_of(ch), [list(c) for c in ch], case, util, rng=random.Random(idx))
     # random shapes
-    nrand = (5000 if T else 320) // ctx.nshards + 1
+    nrand = (40000 if T else 320) // ctx.nshards + 1
     for r in range(nrand):
         rng = ctx.rng("shape", r)
         n = rng.randint(2, 60 if T else 40)
@@ -175,7 +175,7 @@ def run(ctx):
         ctx.count("C04.shape." + kind)
         check_universe(ctx, nodes, list(par), gen.children_of(par), case, util, rng=rng)
     # mutation histories (some calls aborted by a raising hook): values must be fresh immediately after any mutation
-    nh = (3000 if T else 300) // ctx.nshards + 1
+    nh = (30000 if T else 300) // ctx.nshards + 1
     hfams = ("NM", "LM", "Node", "MIX", "VALNM", "VALLM", "FALSY")
     for h in range(nh):
         rng = ctx.rng("hist", h)
